@@ -515,9 +515,10 @@ class Frame:
 class Scope:
     """Name-resolution scope of one query block."""
 
-    __slots__ = ('parent', 'meta', 'binding', 'group', 'aliases', 'ctes', 'rn')
+    __slots__ = ('parent', 'meta', 'binding', 'group', 'aliases', 'ctes', 'rn', 'lock')
 
     def __init__(self, parent=None):
+        self.lock = None  # txmodel only: row-lock mode of this query block ('S' | 'X' | 'U' = UPDATE/DELETE targets X, others S)
         self.parent = parent
         self.meta: Dict[str, List[str]] = {}  # alias -> column names
         self.binding: Dict[str, Optional[dict]] = {}
@@ -544,6 +545,9 @@ class Database:
         self.row_observer = None  # callable(table_name, old_row, new_row) on every row change by UPDATE
         self.coverage: Dict[str, int] = {}
         self.read_cols = None  # set() to record column reads (canonicaliser soundness check)
+        # optional transaction model (vf.txmc.TxModel): statement-level yield points, row locks, read views.
+        # None (the default) = every hook below is skipped and transactions are atomic steps.
+        self.txmodel = None
 
     def add_routine(self, src):
         r = parse_routine(src)
@@ -556,7 +560,10 @@ class Database:
         return r
 
     def session(self):
-        return Session(self)
+        s = Session(self)
+        if self.txmodel is not None:
+            self.txmodel.attach(s)
+        return s
 
 
 def load_database(repo) -> Database:
@@ -676,13 +683,14 @@ class Session:
         self.last_insert_id = 0
         self.result_sets: List[Any] = []
         self.depth = 0
+        self.dml_mode = None  # txmodel only: 'S' while a DML statement evaluates its own query blocks
 
     # -- transactions / undo ------------------------------------------------------------
     def _log(self, entry):
         """Record an undo entry and take the row 'lock'.  Two sessions may have uncommitted writes at the same time
         as long as they touch different rows (InnoDB would let both proceed); touching a row another open
         transaction has written would block in InnoDB, which is not modelled -> harness gap."""
-        if entry[0] in ('ins', 'upd', 'del'):
+        if entry[0] in ('ins', 'upd', 'del') and self.db.txmodel is None:
             locks = self.db.locks
             keys = [(entry[1], entry[2])] + ([(entry[1], entry[3])] if entry[0] == 'upd' else [])
             for k in keys:
@@ -694,6 +702,9 @@ class Session:
         self.undo.append(entry)
 
     def _release(self):
+        if self.db.txmodel is not None:  # txmodel hook: transaction end
+            self.db.txmodel.release(self)
+            return
         locks = self.db.locks
         for k in self.held:
             if locks.get(k) is self:
@@ -764,7 +775,10 @@ class Session:
         self.last_rowcount = 0
         self.stmt_lastrowid = None
         try:
-            self.exec_stmt(st, None)
+            if self.db.txmodel is not None:  # txmodel hook: top-level statement
+                self.db.txmodel.run_stmt(self, st, None)
+            else:
+                self.exec_stmt(st, None)
         except (_Leave, _Return, _Iterate):
             raise SqlSyntaxError('LEAVE/RETURN outside routine')
         except Exception:
@@ -974,6 +988,11 @@ class Session:
         return self.frames[-1].name if self.frames else 'top'
 
     def exec_list(self, stmts, scope):
+        tm = self.db.txmodel
+        if tm is not None:  # txmodel hook: yield point / lock-wait retry around each statement of a routine body
+            for s in stmts:
+                tm.run_stmt(self, s, scope)
+            return
         for s in stmts:
             self.exec_stmt(s, scope)
 
@@ -1068,7 +1087,7 @@ class Session:
             f.vars[pname] = coerce(v, ty)
         self.frames.append(f)
         try:
-            self.exec_stmt(r['body'], None)
+            self.exec_list((r['body'],), None)
         except _Return as ret:
             return (coerce(ret.value, r['returns']),)
         finally:
@@ -1089,7 +1108,7 @@ class Session:
             self.frames.append(f)
             saved_rs = self.result_sets
             try:
-                self.exec_stmt(tr['body'], None)
+                self.exec_list((tr['body'],), None)
             except _Leave:
                 pass
             finally:
@@ -1917,7 +1936,8 @@ class Session:
                     yield b
                 return
             t = self.db.store.tables[name]
-            for row in t.scan():
+            tm = self.db.txmodel
+            for row in (t.scan() if tm is None else tm.scan(self, t, scope)):  # txmodel hook: read view
                 b = dict(base)
                 b[alias] = row
                 yield b
@@ -1995,6 +2015,13 @@ class Session:
 
     def _run_core(self, sel, scope, limit_one=False, with_ctx=False):
         colkinds = {}
+        tm = self.db.txmodel
+        lock_tables = None
+        if tm is not None:  # txmodel hook: locking read (own clause, or source of the enclosing DML statement)
+            scope.lock = sel.get('lock') or self.dml_mode
+            if scope.lock is not None and sel['from'] is not None:
+                lock_tables = {}
+                self._base_tables(sel['from'], lock_tables)
         if sel['from'] is not None:
             self._from_meta(sel['from'], scope, scope.meta, colkinds)
             bindings = self._iter_from(sel['from'], scope, {})
@@ -2008,6 +2035,8 @@ class Session:
                     scope.binding = b
                     if not truth(self.ev(where, scope)):
                         continue
+                if lock_tables:
+                    tm.lock_binding(self, lock_tables, b, scope.lock)
                 yield b
 
         items = sel['items']
@@ -2244,6 +2273,7 @@ class Session:
         sc = Scope(scope)
         selscopes = []
         srcctx = [None]
+        tm = self.db.txmodel
 
         def source():
             if rows is not None:
@@ -2292,6 +2322,8 @@ class Session:
                     raise _err(1048, f"Column '{c.name}' cannot be null")
             ck, cname = self._conflict(t, new)
             if ck is not None:
+                if tm is not None:  # txmodel hook: duplicate-key check locks the existing record
+                    tm.lock_row(self, tname, ck, 'X' if odku is not None else 'S')
                 if odku is not None:
                     old = t.rows[ck]
                     upd = dict(old)
@@ -2335,6 +2367,8 @@ class Session:
                     t.auto_next = new[ac.name] + 1
                 if auto_used is not None and first_auto is None:
                     first_auto = auto_used
+            if tm is not None:  # txmodel hook
+                tm.lock_row(self, tname, key, 'X')
             t.rows[key] = new
             self._log(('ins', tname, key))
             affected += 1
@@ -2353,6 +2387,9 @@ class Session:
 
     def _apply_update(self, t: Table, key, old, upd) -> bool:
         """BEFORE UPDATE trigger, uniqueness, store, AFTER UPDATE trigger.  Returns whether the row changed."""
+        tm = self.db.txmodel
+        if tm is not None:  # txmodel hook
+            tm.lock_row(self, t.name, key, 'X')
         self.fire(t, 'BEFORE', 'UPDATE', old, upd)
         for c in t.cols:
             if upd[c.name] is None and c.notnull:
@@ -2365,6 +2402,8 @@ class Session:
             ck, cname = self._conflict(t, upd, ignore_key=key)
             if ck is not None:
                 raise _err(1062, f"Duplicate entry for key '{t.name}.{cname}'")
+            if tm is not None and newkey != key:  # txmodel hook
+                tm.lock_row(self, t.name, newkey, 'X')
             del t.rows[key]
             t.rows[newkey] = upd
             self._log(('upd', t.name, key, newkey, old))
@@ -2377,6 +2416,9 @@ class Session:
     def exec_update(self, st, scope):
         _, refs, assigns, where, order, limit = st
         sc = Scope(scope)
+        tm = self.db.txmodel
+        if tm is not None:  # txmodel hook: the scan of an UPDATE is a locking read
+            sc.lock = 'U'
         colkinds = {}
         self._from_meta(refs, sc, sc.meta, colkinds)
         base_tables = {}
@@ -2415,6 +2457,10 @@ class Session:
             bindings = [b for _, _, b in keyed]
         if limit is not None:
             bindings = bindings[: int(self.ev(limit, sc))]
+        if tm is not None:  # txmodel hook: X on the rows to update, S on the rows of the other joined tables
+            tq = {q for q, _, _ in targets}
+            for b in bindings:
+                tm.lock_binding(self, base_tables, b, 'U', tq)
         affected = 0
         done = set()
         for b in bindings:
@@ -2462,6 +2508,8 @@ class Session:
         if isinstance(alias, tuple):   # DELETE <alias> FROM <table references> WHERE ...
             refs = alias[1]
             sc = Scope(scope)
+            if self.db.txmodel is not None:  # txmodel hook: locking scan
+                sc.lock = 'U'
             self._from_meta(refs, sc, sc.meta, {})
             base_tables = {}
             self._base_tables(refs, base_tables)
@@ -2483,6 +2531,9 @@ class Session:
                     continue
                 key = t.key_of(row) if t.pk else next(k for k, r in t.rows.items() if r is row)
                 victims.setdefault(key, row)
+            for key, row in victims.items():
+                if self.db.txmodel is not None:  # txmodel hook
+                    self.db.txmodel.lock_row(self, real, key, 'X')
             for key, row in victims.items():
                 del t.rows[key]
                 self._log(('del', real, key, row))
@@ -2511,6 +2562,9 @@ class Session:
             victims = [(k, r) for _, _, k, r in keyed]
         if limit is not None:
             victims = victims[: int(self.ev(limit, sc))]
+        for key, row in victims:
+            if self.db.txmodel is not None:  # txmodel hook
+                self.db.txmodel.lock_row(self, tname, key, 'X')
         for key, row in victims:
             del t.rows[key]
             self._log(('del', tname, key, row))
